@@ -311,7 +311,7 @@ def sample_repr(sc):
 
 
 GROUP_KEYS = ("oracle", "dtype", "bessel", "grouped")
-BUDGET = {"quick": 6000, "thorough": 150000}
+BUDGET = {"quick": 100000, "thorough": 150000}
 WALL_CAP = {"quick": 300, "thorough": 3000}
 RULE = (
     "run i derives 1..6 tensors of 1..3 dimensions sharing a feature dimension (any position), dtype, offset/scale, Bessel flag and a choice tape from "
